@@ -79,6 +79,14 @@ def observe(text, ctx):
         o['pname'], o['rect'] = g.get('name'), parts_of(g)
     except _errs() as ex:
         o['perr'] = type(ex).__name__
+    if 'perr' not in o:
+        # the bulk form of push: the same reference, the same context, the same identifier
+        try:
+            g2 = sut.Ranges().pushes([text], context=dict(ctx) if ctx else None).ranges[0]
+            if g2.get('name') != o['pname']:
+                o['bulk'] = g2.get('name')
+        except _errs() as ex:
+            o['bulk'] = 'raised %s' % type(ex).__name__
     if shared is not None and shared != dict(ctx):
         o['ctx_changed'] = {k: (ctx.get(k), shared.get(k)) for k in set(ctx) | set(shared) if ctx.get(k) != shared.get(k)}
     return o
@@ -181,6 +189,8 @@ def check_rect(case):
             nt.append(['sp', den['book'], X.fold(den['sheet']), rect, text, sorted((k, str(v)) for k, v in ctx.items())])
         where = '%r in %r' % (text, ctx)
         both = [o.get('name'), o.get('pname')]
+        if 'bulk' in o:
+            fails.append(('observe|bulk-push-differs|%s' % sp['q'], '%s: push -> %r, pushes([..]) -> %r' % (where, o.get('pname'), o['bulk'])))
         if 'ctx_changed' in o:
             fails.append(('context|changed-by-resolution|%s' % sp['q'], 'resolving %s changed the caller\'s context: %r' % (where, o['ctx_changed'])))
         qcause = 'numbered-link-quoted' if sp['q'] == 'idxq' else None
